@@ -4,37 +4,38 @@ PY_SEM = "Python semantics as encoded by pyvc (DESIGN 3.1): left-to-right evalua
 STUBS = "assumed contracts of NumPy/Astropy/Dask calls (pyvc/stubs_*.py), cross-checked by the bounded layer only"
 
 from props import c17 as _c17
+from props import c18 as _c18
 
 PROPS = {
-    "C01": {"level": "proof", "modules": ["contracts.core"],
+    "C01": {"level": "proof", "modules": ["contracts.core", "contracts.utils", "contracts.transforms"],
             "technique": "contract-based deductive verification (AST->z3/cvc5 obligations against spec functions) + bounded differential replay",
             "level_text": "every obligation generated from the real source of the slicing/cropping functions (time-stamp ledger: start_time, sample_rate, length, data source index, for any slice bounds/step and any length) is discharged by z3/cvc5 for all values of the symbolic inputs; real Time rounding is only covered by the bounded layer",
             "level_note": "trusted: pyvc's encoding of Python, stubs for slice.indices/ndarray indexing/Quantity/Time (model E: exact reals), solver soundness; bounded layer compares the real code with the concrete spec on seeded inputs",
             "trusted_base": [E_MODEL, PY_SEM, STUBS, "z3 4.x/5.1 and cvc5 soundness"],
             "assumptions": ["Time +/- Quantity exact (model E); real Time rounding re-checked by the bounded layer at 1e-10 s"],
             "bounded_bounds": "N in {0,1,2,3,5,8,13}, sample dims 1..3, slice bounds in [-9,9], steps {1,2,3,7}"},
-    "C02": {"level": "proof", "modules": ["contracts.core"],
+    "C02": {"level": "proof", "modules": ["contracts.core", "contracts.utils", "contracts.transforms"],
             "technique": "contract-based deductive verification (AST->z3/cvc5 obligations against spec functions) + bounded differential replay",
             "level_text": "channel_freqs/min_freq/max_freq/bandwidth/_freq_slice/__getitem__/Stokes access are verified against the band model of the statement for every channel count, alignment, centre, bandwidth and slice (nonlinear real arithmetic, all inputs symbolic); float rounding of labels only in the bounded layer",
             "level_note": "trusted: pyvc's encoding of Python, stubs for slice.indices/np.arange/np.take/Quantity algebra (model E), solver soundness",
             "trusted_base": [E_MODEL, PY_SEM, STUBS, "z3/cvc5 soundness"],
             "assumptions": ["frequencies are exact reals (model E); 8-ulp label comparison on real doubles in the bounded layer"],
             "bounded_bounds": "nchan 1..3 (x extra dims), cf in {0, 4e8, 1.4e9, 123456789}, bw over decades, slice bounds in [-9,9]"},
-    "C16": {"level": "proof", "modules": ["contracts.core"],
+    "C16": {"level": "proof", "modules": ["contracts.core", "contracts.utils", "contracts.transforms"],
             "technique": "contract-based deductive verification (AST->z3/cvc5 obligations against spec functions) + bounded differential replay",
             "level_text": "the six constructors (run through the real __init__ chain and setters), like() for every (target, source) class pair, and every slicing path are verified against the class contract of the statement: each violated clause raises ValueError, otherwise the object carries exactly the prescribed attributes (baseband chan_bw = sample_rate, odd channel count -> 'center'); pickling is bounded only",
             "level_note": "trusted: pyvc's encoding of Python incl. inspect.signature answered from the AST, stubs for Quantity/Time/astype(casting='safe' answered by the installed NumPy), solver soundness",
             "trusted_base": [E_MODEL, PY_SEM, STUBS, "z3/cvc5 soundness"],
             "assumptions": ["Time(x, format='isot', precision=9) accepts exactly Time instances among the modelled argument kinds"],
             "bounded_bounds": "dims 0..13, all listed invalid-argument kinds, dtypes bool/int64/float32/float64/complex64/complex128"},
-    "C13": {"level": "proof", "modules": ["contracts.core"],
+    "C13": {"level": "proof", "modules": ["contracts.core", "contracts.utils", "contracts.transforms"],
             "technique": "contract-based deductive verification (AST->z3 nonlinear real arithmetic, division-free) + bounded differential replay",
             "level_text": "to_linear/to_circular/to_stokes/to_intensity/Stokes access verified element-wise against the formulas of the statement for every complex sample value, both bases, both widths, NumPy and Dask containers; unitarity, round trips, basis independence of Stokes, I^2=Q^2+U^2+V^2, I>=0 and I=sum of intensities are lemmas discharged over compositions of the real methods; float rounding (a few ulp) only in the bounded layer",
             "level_note": "trusted: pyvc's encoding, stubs np.take/np.stack/.real/.imag/.conj/NEP-50 promotion (answered by the installed NumPy), 1/sqrt(2) as a symbolic constant h with 2h^2=1, solver soundness",
             "trusted_base": [E_MODEL, PY_SEM, STUBS, "z3/cvc5 soundness"],
             "assumptions": ["complex arithmetic exact (model E); bounded layer tolerance 1e-5 relative to the largest sample"],
             "bounded_bounds": "N in {0..13}, nchan 1..3, extra dim 1..3, coded pseudo-random samples in [-1,1)"},
-    "C17": {"level": "proof", "modules": ["contracts.core"],
+    "C17": {"level": "proof", "modules": ["contracts.core", "contracts.utils", "contracts.transforms"],
             "technique": "contract-based deductive verification of __array_ufunc__/__array__ against a spec over an uninterpreted ufunc + bounded sweep of real NumPy ufuncs",
             "level_text": "for an arbitrary element-wise ufunc (uninterpreted, 1-3 inputs, 1-2 outputs) every operand arrangement, out= form, class and back end: the wrapper unwraps every signal, applies the ufunc to the data, returns the given out objects untouched in identity/metadata or wraps in type(self).like(self, .); non-call methods and matmul return NotImplemented; __array__ accepts the (dtype, copy) protocol. NumPy's own dispatch order and casting are assumed and exercised only by the bounded sweep",
             "level_note": "trusted: NumPy dispatches __array_ufunc__ to the first signal operand and turns NotImplemented into TypeError (bounded sweep only); pyvc encoding; solver",
@@ -43,6 +44,15 @@ PROPS = {
             "bounded_per_instance": {"quick": 0, "thorough": 0},
             "bounded_extra": [_c17.bounded],
             "bounded_bounds": "23 NumPy ufuncs x 5 classes x NumPy/Dask x 6 operand arrangements; out=, in-place chains, reduce/accumulate/outer/matmul refusals, asarray protocol"},
+    "C18": {"level": "proof", "modules": ["contracts.core", "contracts.utils", "contracts.transforms"],
+            "technique": "contract-based deductive verification with loop invariants, variants and ghost exponents (LIA + uninterpreted V=7^d5^c3^j2^a with ground lemma instances) + exhaustive bounded complement",
+            "level_text": "for every N >= 0, with no bound: next_fast_len/prev_fast_len return a 7-smooth number (ghost exponent witness) on the right side of N and no 7-smooth number lies strictly between (optimality, via inductive invariants of the four nested loops of each function, re-derived from the real source on every run); all loops terminate (lexicographic variants); fast_len crops to exactly prev_fast_len(len) samples from the start",
+            "level_note": "trusted: pyvc encoding of Python ints (unbounded), the induction principle behind the V lemmas (base/step discharged), lru_cache treated as identity (function is pure), solver soundness",
+            "trusted_base": [PY_SEM, "V(d,c,j,a) axiomatised by its recurrences; positivity/monotonicity/parity instantiated at ground terms (base and step obligations discharged in lemma.C18.V)", "z3/cvc5 soundness"],
+            "assumptions": ["functools.lru_cache is transparent for a pure function"],
+            "bounded_per_instance": {"quick": 30, "thorough": 300},
+            "bounded_extra": [_c18.bounded],
+            "bounded_bounds": "exhaustive N < 20000 (quick) / 10^6 (thorough); s-1, s, s+1 for 3000 sampled (quick) / all 75711 (thorough) 7-smooth s < 2^62"},
 }
 
 NOT_APPLICABLE = {}
